@@ -833,26 +833,102 @@ Proof.
 Qed.
 
 (* hwloc_get_obj_with_same_locality between normal/memory types: what is returned has the requested
-   sets; NULL means no object of the (single) level of that type has them *)
-Lemma same_locality_sound_complete_l d src ty :
+   sets and matches the subtype / name prefix; NULL means no object of the (single) level of that
+   type does *)
+Lemma same_locality_sound_complete_l d src ty mt :
   is_normal (o_type src) || is_memory (o_type src) = true -> is_normal ty || is_memory ty = true ->
-  match get_obj_with_same_locality d src ty with
+  match get_obj_with_same_locality d src ty mt 0 with
   | (Some o, e) => e = E_OK /\ In o (level_objs d (get_type_depth d (Z.of_N ty))) /\
-                   opt_bs_eqb (o_cs src) (o_cs o) = true /\ opt_bs_eqb (o_nds src) (o_nds o) = true
+                   opt_bs_eqb (o_cs src) (o_cs o) = true /\ opt_bs_eqb (o_nds src) (o_nds o) = true /\ mt o = true
   | (None, e) => e = E_NOENT /\
                  (get_type_depth d (Z.of_N ty) = HWLOC_TYPE_DEPTH_UNKNOWN \/ get_type_depth d (Z.of_N ty) = HWLOC_TYPE_DEPTH_MULTIPLE \/
                   forall o, In o (level_objs d (get_type_depth d (Z.of_N ty))) ->
-                            opt_bs_eqb (o_cs src) (o_cs o) && opt_bs_eqb (o_nds src) (o_nds o) = false)
+                            opt_bs_eqb (o_cs src) (o_cs o) && opt_bs_eqb (o_nds src) (o_nds o) && mt o = false)
   end.
 Proof.
-  intros Hs Ht. unfold get_obj_with_same_locality. rewrite Hs.
+  intros Hs Ht. unfold get_obj_with_same_locality. cbn [N.eqb negb]. rewrite Hs.
   apply orb_true_iff in Ht. assert (E : negb (is_normal ty) && negb (is_memory ty) = false) by (destruct Ht as [-> | ->]; [reflexivity|apply andb_false_r]).
   rewrite E. set (dep := get_type_depth d (Z.of_N ty)).
   destruct (Z.eqb_spec dep HWLOC_TYPE_DEPTH_UNKNOWN) as [E1|N1]; cbn [orb]; [auto|].
   destruct (Z.eqb_spec dep HWLOC_TYPE_DEPTH_MULTIPLE) as [E2|N2]; [auto|].
   destruct (find _ (level_objs d dep)) as [o|] eqn:F.
-  - apply find_some in F as [F1 F2]. apply andb_true_iff in F2 as [F2 F3]. auto.
+  - apply find_some in F as [F1 F2]. apply andb_true_iff in F2 as [F2 F4]. apply andb_true_iff in F2 as [F2 F3]. auto.
   - split; [reflexivity|]. right. right. intros o Ho. exact (find_none _ _ F o Ho).
+Qed.
+
+(* ... between PCI / OS devices: with [pci] the first ancestor-or-self of src that is not an OS
+   device, a PCI answer is pci itself (a matching PCI device), an OS-device answer is the first
+   matching OS device among the I/O children of pci; NULL iff there is none; any non-zero flags,
+   any other I/O type or a Misc source is EINVAL *)
+Lemma same_locality_io_l d src ty mt :
+  is_normal (o_type src) || is_memory (o_type src) = false ->
+  (forall flags, flags <> 0 -> get_obj_with_same_locality d src ty mt flags = (None, E_INVAL)) /\
+  (is_io (o_type src) = false -> get_obj_with_same_locality d src ty mt 0 = (None, E_INVAL)) /\
+  (is_io (o_type src) = true ->
+   (o_type src =? HWLOC_OBJ_OS_DEVICE) || (o_type src =? HWLOC_OBJ_PCI_DEVICE) = true ->
+   forall pci, climb_osdev d (S (List.length (t_objs d))) src = Some pci ->
+   (ty = HWLOC_OBJ_PCI_DEVICE ->
+      get_obj_with_same_locality d src ty mt 0 =
+      if (o_type pci =? HWLOC_OBJ_PCI_DEVICE) && mt pci then (Some pci, E_OK) else (None, E_NOENT)) /\
+   (ty = HWLOC_OBJ_OS_DEVICE ->
+      match get_obj_with_same_locality d src ty mt 0 with
+      | (Some c, e) => e = E_OK /\ In c (io_children d pci) /\ o_type c = HWLOC_OBJ_OS_DEVICE /\ mt c = true
+      | (None, e) => e = E_NOENT /\ forall c, In c (io_children d pci) -> (o_type c =? HWLOC_OBJ_OS_DEVICE) && mt c = false
+      end)).
+Proof.
+  intros Hn. split; [|split].
+  - intros flags Hf. unfold get_obj_with_same_locality. apply N.eqb_neq in Hf. now rewrite Hf.
+  - intros Hio. unfold get_obj_with_same_locality. cbn [N.eqb negb]. now rewrite Hn, Hio.
+  - intros Hio Hsrc pci Hc. split.
+    + intros ->. unfold get_obj_with_same_locality. cbn [N.eqb negb]. rewrite Hn, Hio, Hsrc, Hc.
+      rewrite (N.eqb_refl HWLOC_OBJ_PCI_DEVICE), orb_true_r. cbn [negb orb]. reflexivity.
+    + intros ->. unfold get_obj_with_same_locality. cbn [N.eqb negb]. rewrite Hn, Hio, Hsrc, Hc.
+      rewrite (N.eqb_refl HWLOC_OBJ_OS_DEVICE). cbn [negb orb].
+      assert (E : (HWLOC_OBJ_OS_DEVICE =? HWLOC_OBJ_PCI_DEVICE) = false) by reflexivity. rewrite E.
+      destruct (find _ (io_children d pci)) as [c|] eqn:F.
+      * apply find_some in F as [F1 F2]. apply andb_true_iff in F2 as [F2 F3]. apply N.eqb_eq in F2. auto.
+      * split; [reflexivity|]. intros c Hc'. exact (find_none _ _ F c Hc').
+Qed.
+
+(* hwloc_get_type_depth_with_attr: without a usable attribute it is hwloc_get_type_depth; for Groups
+   at several depths and a group depth g it is the first level whose first object is a Group of
+   depth g, UNKNOWN when there is none *)
+Lemma type_depth_with_attr_l d ty gd :
+  let r := get_type_depth_with_attr d ty gd in
+  match gd with
+  | None => r = get_type_depth d ty
+  | Some g =>
+      if (ty =? Z.of_N HWLOC_OBJ_GROUP)%Z && (get_type_depth d ty =? HWLOC_TYPE_DEPTH_MULTIPLE)%Z && negb (g =? Z.of_N UINT_MAX)%Z then
+        (r = HWLOC_TYPE_DEPTH_UNKNOWN /\
+         forall l, (l < Z.to_nat (t_depth d))%nat ->
+           match level_first d (Z.of_nat l) with Some o => (o_type o =? HWLOC_OBJ_GROUP) && (o_group_depth o =? g)%Z | None => false end = false) \/
+        (exists l o, r = Z.of_nat l /\ (l < Z.to_nat (t_depth d))%nat /\ level_first d r = Some o /\
+                     o_type o = HWLOC_OBJ_GROUP /\ o_group_depth o = g /\
+                     forall l', (l' < l)%nat ->
+                       match level_first d (Z.of_nat l') with Some o => (o_type o =? HWLOC_OBJ_GROUP) && (o_group_depth o =? g)%Z | None => false end = false)
+      else r = get_type_depth d ty
+  end.
+Proof.
+  intros r. subst r. unfold get_type_depth_with_attr. destruct gd as [g|]; [|reflexivity].
+  destruct (_ && _ && _); [|reflexivity].
+  set (p := fun l : nat => match level_first d (Z.of_nat l) with Some o => (o_type o =? HWLOC_OBJ_GROUP) && (o_group_depth o =? g)%Z | None => false end).
+  generalize (Z.to_nat (t_depth d)). intros n.
+  assert (G : forall n start, match find p (seq start n) with
+            | Some l => (start <= l < start + n)%nat /\ p l = true /\ forall l', (start <= l' < l)%nat -> p l' = false
+            | None => forall l, (start <= l < start + n)%nat -> p l = false end).
+  { induction n0 as [|k IH]; intros start; cbn [seq find]; [intros l Hl; lia|].
+    destruct (p start) eqn:Ep.
+    - split; [lia|]. split; [exact Ep|]. intros l' Hl'. lia.
+    - specialize (IH (S start)). destruct (find p (seq (S start) k)) as [l|].
+      + destruct IH as (I1 & I2 & I3). split; [lia|]. split; [exact I2|]. intros l' Hl'.
+        destruct (Nat.eq_dec l' start) as [->|]; [exact Ep|apply I3; lia].
+      + intros l Hl. destruct (Nat.eq_dec l start) as [->|]; [exact Ep|apply IH; lia]. }
+  specialize (G n 0%nat). fold p. destruct (find p (seq 0 n)) as [l|].
+  - right. destruct G as (G1 & G2 & G3). unfold p in G2. destruct (level_first d (Z.of_nat l)) as [o|] eqn:El; [|discriminate].
+    apply andb_true_iff in G2 as [G2a G2b]. apply N.eqb_eq in G2a. apply Z.eqb_eq in G2b.
+    exists l, o. split; [reflexivity|]. split; [lia|]. split; [first [exact El|reflexivity]|]. split; [exact G2a|]. split; [exact G2b|].
+    intros l' Hl'. apply G3. lia.
+  - left. split; [reflexivity|]. intros l Hl. apply G. lia.
 Qed.
 
 (* ================================================================== *)
